@@ -240,6 +240,9 @@ pub struct RunOpts {
     pub stop_at_first: bool,
     /// drop the cache mid-history at this op index (C11: drop with queued ops)
     pub drop_at: Option<usize>,
+    /// interpreter mode (Miri): most steps only execute the op and judge its result against the
+    /// ground truth; the snapshot based monitors run at every 8th step
+    pub light: bool,
 }
 
 pub struct Driver {
@@ -483,6 +486,10 @@ impl Driver {
             self.drop_cache(true);
             return;
         }
+        if self.opts.light && idx % 8 != 7 {
+            self.step_light(op);
+            return;
+        }
         let exact = self.exact();
         let is_sync = self.cfg.kind == Kind::Sync;
         let now = self.now();
@@ -594,7 +601,9 @@ impl Driver {
         }
 
         // --- sketch: only gets are recorded (C14), each at most once
-        self.check_sketch(&op, &pre_sketch, &hash_of, got.is_some());
+        if !self.opts.light {
+            self.check_sketch(&op, &pre_sketch, &hash_of, got.is_some());
+        }
 
         // --- transition
         let invalidate_if_targets: HashSet<u32> = match op {
@@ -659,6 +668,28 @@ impl Driver {
         }
         let now_after = self.now();
 
+        // evidence: why entries left (each cause drives one of the unlink paths of the deques)
+        for e in &pre.entries {
+            if post.entry(e.key).map(|q| q.vid == e.vid).unwrap_or(false) {
+                continue;
+            }
+            let replaced = matches!(op, Op::Insert { k, .. } if k == e.key);
+            let was_cur = self.truth.cur(e.key).map(|l| l.vid == e.vid).unwrap_or(false);
+            let k: &'static str = if replaced {
+                "entries_left_replaced"
+            } else if !was_cur {
+                "entries_left_invalidated"
+            } else {
+                match truth_after.liveness(e.key, now_after) {
+                    Liveness::Dead(_) => "entries_left_invalidated",
+                    Liveness::ExpiredTtl => "entries_left_ttl_expired",
+                    Liveness::ExpiredTti => "entries_left_tti_expired",
+                    _ => "entries_left_for_capacity",
+                }
+            };
+            self.result.stats.inc(k);
+        }
+
         if exact {
             self.check_transition_exact(&op, &pre, &post, &truth_after, now, cand_freq.unwrap_or(0), &hash_of, &pre_sketch, &invalidate_if_targets);
         } else {
@@ -675,6 +706,107 @@ impl Driver {
             self.pending_new_weight += self.eff_weight(w) as u64;
         }
         self.last_sync_quiescent = post_quiescent;
+        self.op_index += 1;
+    }
+
+    /// Executes one op and judges only what needs no snapshot (see `RunOpts::light`).
+    fn step_light(&mut self, op: Op) {
+        let is_sync = self.cfg.kind == Kind::Sync;
+        let now = self.now();
+        let mut got: Option<Option<u64>> = None;
+        let mut contained: Option<bool> = None;
+        let mut iterated: Option<Vec<(u32, u64)>> = None;
+        let density_every = self.cfg.density == Density::Every;
+        let res = {
+            let cut = self.cut.as_mut().unwrap();
+            catch_unwind(AssertUnwindSafe(|| {
+                match op {
+                    Op::Insert { k, vid, w } => cut.insert(k, vid, w),
+                    Op::Get { k } => got = Some(cut.get(k)),
+                    Op::Contains { k } => contained = Some(cut.contains(k)),
+                    Op::Iter => iterated = Some(cut.iter()),
+                    Op::Invalidate { k } => cut.invalidate(k),
+                    Op::InvalidateAll => cut.invalidate_all(),
+                    Op::InvalidateIf { p } => cut.invalidate_if(p),
+                    Op::Advance { ns } => cut.advance(ns),
+                    Op::Sync => cut.sync(),
+                }
+                if is_sync && density_every && !matches!(op, Op::Advance { .. } | Op::Sync) {
+                    cut.sync();
+                }
+            }))
+        };
+        if res.is_err() {
+            self.on_panic(&op);
+            return;
+        }
+        self.result.ops_executed += 1;
+        self.result.stats.inc("ops");
+        self.result.stats.inc("ops_light");
+        let empty = Snap::default();
+        match op {
+            Op::Get { k } => match got.unwrap() {
+                Some(v) => self.judge_visible("get", k, Some(v), now),
+                None => self.judge_absent("get", k, now, &empty, &empty),
+            },
+            Op::Contains { k } => {
+                if contained.unwrap() {
+                    self.judge_visible("contains_key", k, None, now)
+                } else {
+                    self.judge_absent("contains_key", k, now, &empty, &empty)
+                }
+            }
+            Op::Iter => {
+                for (k, v) in iterated.take().unwrap() {
+                    self.judge_visible("iter", k, Some(v), now);
+                }
+            }
+            _ => {}
+        }
+        let synced = matches!(op, Op::Sync) || (is_sync && density_every && !matches!(op, Op::Advance { .. }));
+        match op {
+            Op::Insert { k, vid, w } => {
+                let ew = self.eff_weight(w);
+                self.truth.on_insert(k, vid, ew, now);
+                self.pending_new_weight += ew as u64;
+            }
+            Op::Get { k } => {
+                if let Some(Some(v)) = got {
+                    if self.truth.cur(k).map(|l| l.vid == v).unwrap_or(false) {
+                        self.truth.on_get_hit(k, now);
+                    } else {
+                        self.truth.on_get_miss();
+                    }
+                } else {
+                    self.truth.on_get_miss();
+                }
+                if is_sync {
+                    let h = self.cut.as_ref().unwrap().hash(k);
+                    self.pending_reads.push(h);
+                }
+            }
+            Op::Invalidate { k } => {
+                self.invalidations += 1;
+                self.truth.on_invalidate(k)
+            }
+            Op::InvalidateAll => {
+                self.invalidations += 1;
+                self.truth.on_invalidate_all(now)
+            }
+            Op::InvalidateIf { p } => {
+                if !is_sync {
+                    self.invalidations += 1;
+                    self.truth.on_invalidate_if(p)
+                }
+            }
+            _ => {}
+        }
+        if synced {
+            self.truth.on_sync(READ_LOG_SIZE);
+            self.pending_reads.clear();
+        }
+        // the unsync excess rule needs the previous quiescent point: be permissive after a light step
+        self.allowed_excess = u64::MAX / 4;
         self.op_index += 1;
     }
 
